@@ -66,7 +66,8 @@ REQUIRED_PROBES = ["body_exception_compress", "body_exception_decompress",
                    "corrupt_archive_truncated", "corrupt_archive_flipped",
                    "fault_at_tempfile_creation", "preexisting_target",
                    "content_larger_than_chunk", "short_read",
-                   "two_blocks_open_at_once", "target_prefilled_longer"]
+                   "two_blocks_open_at_once", "target_prefilled_longer",
+                   "uncompressed_namesake_next_to_archive"]
 
 _T = {}
 FORMATS = ["gz", "bz2", "zip", "xz"]
@@ -375,6 +376,9 @@ def gen_workload(tape):
             # a file already sitting at the explicit target (it "will be
             # overwritten"), longer than the decompressed content
             blk["target_prefilled"] = blk["target"] and tape.flag("prefill", 1, 2)
+            # an uncompressed file named like the archive without its suffix
+            # lies next to the archive (as after `gunzip -k`), newer than it
+            blk["namesake"] = kind != "decompress_pair" and tape.flag("namesake", 1, 4)
         # explicit arguments passed by position, as in the docstring examples
         blk["positional"] = tape.flag("positional", 1, 3)
         blk["target_bare"] = tape.flag("target_bare", 1, 3)
@@ -641,6 +645,18 @@ class Exec:
             with open(target, "wb") as f:
                 f.write(b"OLD CONTENT OF THE TARGET FILE " * 40)
             self.probe("target_prefilled_longer")
+        namesake, namesake_made, namesake_bytes = None, False, None
+        if blk.get("namesake"):
+            nb = os.path.splitext(path)[0]
+            if nb != path and not os.path.isdir(nb):
+                namesake = nb
+                if not os.path.exists(nb):
+                    with open(nb, "wb") as f:
+                        f.write(b"UNCOMPRESSED NAMESAKE, NOT THE ARCHIVED BYTES ")
+                    namesake_made = True
+                with open(nb, "rb") as f:
+                    namesake_bytes = f.read()
+                self.probe("uncompressed_namesake_next_to_archive")
         self.body_points.append((bi, 2))
         exc = None
         got = None
@@ -674,6 +690,29 @@ class Exec:
             with open(path, "wb") as f:
                 f.write(pristine)
         self.log.append(f"b{bi} decompress {os.path.basename(path)} -> {type(exc).__name__}")
+        if namesake is not None:
+            now = None
+            if os.path.isfile(namesake):
+                with open(namesake, "rb") as f:
+                    now = f.read()
+            if copy_path is not None and os.path.abspath(copy_path) == os.path.abspath(namesake):
+                self.V.append(_viol(
+                    "C12/decompress/namesake-handed-out",
+                    f"block {bi}: decompress({os.path.basename(path)!r}) handed out the "
+                    f"uncompressed file {os.path.basename(namesake)!r} lying next to the "
+                    f"archive instead of a decompressed copy"))
+                copy_path = None
+            elif now != namesake_bytes:
+                self.V.append(_viol(
+                    "C12/decompress/namesake-changed",
+                    f"block {bi}: the file {os.path.basename(namesake)!r} next to the archive "
+                    f"was {'removed' if now is None else 'changed'} by decompress"))
+            if namesake_made:
+                if os.path.exists(namesake):
+                    os.remove(namesake)
+            elif now != namesake_bytes:
+                with open(namesake, "wb") as f:
+                    f.write(namesake_bytes)
         leftover = copy_path or target
         if target and blk.get("target_prefilled") and copy_path is None \
                 and os.path.exists(target):
